@@ -20,13 +20,13 @@ from props.common import diff_run, oracle_run, account
 from props import C17 as c17
 
 DRIVERS = ["composite"]
-MODEL = "adapters"
+MODEL = "composite"
 ASSUMPTIONS = [
     "amgcl templates instantiated at the exact rational vq::Q execute the same code as at double",
     "inner solvers of the composites are replaced by exact ones through the documented template parameters (USolver/PSolver/PPrecond); the composite's own code (sub-block extraction, adjust_p, apply, matrix-free spmv, transfer operators) is the real one",
     "the model-side inner solvers are dense eliminations in the OCaml driver whose every result is verified against the extracted specification before use",
 ]
-TRUSTED_BASE = ["harness/drv_composite.cpp (exact_dense_solver, rec_exact_precond), ocaml/adapters/ops_composite.ml"]
+TRUSTED_BASE = ["harness/drv_composite.cpp (exact_dense_solver, rec_exact_precond), ocaml/composite/ops_composite.ml"]
 
 
 def saddle(r, nu, np_, with_c):
@@ -95,7 +95,17 @@ def cpr_cases(tier, seed):
         rows = gen.nonsym_dd(r, n, density=r.choice([0.3, 0.6, 1.0]))
         A = fmt_crs(n, n, rows)
         for kind in ("scalar_dummy", "block_dummy", "scalar_spai0", "update_dummy"):
-            out.append(dict(id="c%d" % len(out), line="cpr %s %d 0 %s" % (kind, b, A), kind=kind, b=b, crs=A, grp=it))
+            out.append(dict(id="c%d" % len(out), line="cpr %s %d 0 %s" % (kind, b, A), kind=kind, b=b, active=0, crs=A, grp=it))
+        # active_rows < n: the trailing unknowns (wells) take no part in the pressure system;
+        # active_rows a multiple of the block size (the set-up leaves scatter->ptr unset otherwise)
+        if nb >= 2:
+            act = b * r.randint(1, nb - 1)
+            extra = r.choice([0, 1, 2])      # trailing rows that do not even fill a block
+            n2 = n + extra
+            rows2 = gen.nonsym_dd(r, n2, density=r.choice([0.5, 1.0])) if extra else rows
+            A2 = fmt_crs(n2, n2, rows2)
+            for kind in ("scalar_dummy", "scalar_spai0", "update_dummy"):
+                out.append(dict(id="c%d" % len(out), line="cpr %s %d %d %s" % (kind, b, act, A2), kind=kind, b=b, active=act, crs=A2, grp=None))
     return out
 
 
@@ -260,9 +270,8 @@ def run_patterns(ctx, pats):
 
 def run_cpr(ctx, cs):
     lines = ["%s %s" % (c["id"], c["line"]) for c in cs]
-    impl = c17.run_all(ctx, ctx["cpp"]["composite"], lines)
-    account(ctx, lines, impl)
-    fails = []; ol = []; byid = {}
+    f, impl, _ = diff_run(ctx, "composite", lines, theorem="correspondence drv_composite (preconditioner::cpr with a recording exact pressure stage) vs Cpr.v (cpr_setup / cprb_setup / cpr_partial_update) + Composite.v cpr_apply")
+    fails = list(f); ol = []; byid = {}
     grp = {}
     for c in cs:
         cid = c["id"]; line = "%s %s" % (cid, c["line"]); byid[cid] = line
@@ -276,9 +285,9 @@ def run_cpr(ctx, cs):
         if not o.startswith("{"):
             fails.append(dict(kind="counterexample", case=line, impl=o[:300], model=None, op="cpr", size=len(line), theorem="C18: cpr construction/apply failed")); continue
         dense, app = split_top(o)
-        grp.setdefault(c["grp"], {})[c["kind"]] = (dense, app, line)
-        ol.append("%s o.cpr %s %d %s %s %s" % (cid, c["kind"], c["b"], c["crs"], mtok(dense), mtok(app)))
-    fails += oracle_run(ctx, ol, "C18: CPR computes x = S f + Scatter P (Fpp (f - A S f)) with the pressure matrix equal to the first-row-of-inverse-diagonal-block weighting of A", lambda cid: byid[cid])
+        if c.get("grp") is not None: grp.setdefault(c["grp"], {})[c["kind"]] = (dense, app, line)
+        ol.append("%s o.cpr %s %d %d %s %s %s" % (cid, c["kind"], c["b"], c.get("active", 0), c["crs"], mtok(dense), mtok(app)))
+    fails += oracle_run(ctx, ol, "C18: CPR computes x = S f + Scatter P (Fpp (f - A S f)) with the pressure matrix equal to the first-row-of-inverse-diagonal-block weighting of (the active part of) A", lambda cid: byid[cid])
     for g, d in grp.items():
         if "scalar_dummy" in d and "block_dummy" in d:
             ctx["stats"]["oracle_checks"] += 1
@@ -290,10 +299,10 @@ def run_cpr(ctx, cs):
 
 def run_deflate(ctx, cs):
     lines = ["%s %s" % (c["id"], c["line"]) for c in cs]
-    proj = [l for l, c in zip(lines, cs) if c["what"] == "project"]
-    f, impl, _ = diff_run(ctx, "composite", proj, theorem="correspondence drv_composite (deflated_solver::project) vs Composite.v deflate_project")
+    proj = [l for l, c in zip(lines, cs) if c["what"] in ("project", "apply")]
+    f, impl, _ = diff_run(ctx, "composite", proj, theorem="correspondence drv_composite (deflated_solver::init + project / apply) vs Composite.v deflate_E, deflate_project + Inverse.v inverse (CompositeProofs5.deflate_init)")
     fails = list(f)
-    rest = [l for l, c in zip(lines, cs) if c["what"] != "project"]
+    rest = [l for l, c in zip(lines, cs) if c["what"] not in ("project", "apply")]
     impl2 = c17.run_all(ctx, ctx["cpp"]["composite"], rest); account(ctx, rest, impl2); impl.update(impl2)
     ol = []; byid = {}
     for c, line in zip(cs, lines):
